@@ -32,6 +32,7 @@ type vxC03Case struct {
 	Snappy   bool                 `json:"snappy"`
 	Tracing  bool                 `json:"tracing"`
 	Payload  map[string]string    `json:"payload,omitempty"` // hex / "null"
+	EmptyPL  bool                 `json:"empty_payload,omitempty"` // an empty but non-nil custom payload map
 	Stmt     string               `json:"stmt,omitempty"`
 	StmtLen  int                  `json:"stmt_len,omitempty"` // >0: statement is this many 'x' (large statements)
 	IDHex    string               `json:"id,omitempty"`
@@ -109,6 +110,9 @@ func vxDrawC03(t *rapid.T) *vxC03Case {
 			}
 			c.Payload[rapid.StringMatching(`[a-z]{1,6}`).Draw(t, "pkey")] = v
 		}
+	}
+	if c.Payload == nil && rapid.IntRange(0, 9).Draw(t, "emptypl") == 0 && (c.Kind == "QUERY" || c.Kind == "EXECUTE" || c.Kind == "BATCH" || c.Kind == "PREPARE") {
+		c.EmptyPL = true
 	}
 	stmt := rapid.OneOf(rapid.Just("SELECT * FROM t WHERE k = ?"), rapid.String(), rapid.Just("")).Draw(t, "stmt")
 	switch c.Kind {
@@ -217,6 +221,13 @@ func vxToQueryValues(vs []cqlspec.ReqValue, n int) []queryValues {
 	return out
 }
 
+func (c *vxC03Case) payloadBytes() map[string][]byte {
+	if c.EmptyPL && len(c.Payload) == 0 {
+		return map[string][]byte{}
+	}
+	return vxPayloadBytes(c.Payload)
+}
+
 func vxPayloadBytes(p map[string]string) map[string][]byte {
 	if p == nil {
 		return nil
@@ -273,15 +284,15 @@ func vxBuildC03(c *vxC03Case) frameBuilder {
 		}
 		return &writeAuthResponseFrame{data: data}
 	case "QUERY":
-		return &writeQueryFrame{statement: c.stmt(), params: params(), customPayload: vxPayloadBytes(c.Payload)}
+		return &writeQueryFrame{statement: c.stmt(), params: params(), customPayload: c.payloadBytes()}
 	case "PREPARE":
-		return &writePrepareFrame{statement: c.stmt(), keyspace: c.Keyspace, customPayload: vxPayloadBytes(c.Payload)}
+		return &writePrepareFrame{statement: c.stmt(), keyspace: c.Keyspace, customPayload: c.payloadBytes()}
 	case "EXECUTE":
 		id, _ := hex.DecodeString(c.IDHex)
-		return &writeExecuteFrame{preparedID: id, params: params(), customPayload: vxPayloadBytes(c.Payload)}
+		return &writeExecuteFrame{preparedID: id, params: params(), customPayload: c.payloadBytes()}
 	case "BATCH":
 		w := &writeBatchFrame{typ: BatchType(c.BatchTyp), consistency: Consistency(c.Cons), serialConsistency: SerialConsistency(c.Serial),
-			defaultTimestamp: c.DefTS, defaultTimestampValue: c.TS, customPayload: vxPayloadBytes(c.Payload)}
+			defaultTimestamp: c.DefTS, defaultTimestampValue: c.TS, customPayload: c.payloadBytes()}
 		for _, e := range c.Entries {
 			st := batchStatment{statement: e.Statement, values: vxToQueryValues(e.Values, 0)}
 			if e.Prepared {
